@@ -67,12 +67,14 @@ fn in_context(kind: usize, id: &[u8], other: &[u8]) -> Vec<u8> {
             o.extend_from_slice(&[97, 1]);
         }
         6 => {
-            // fun environment: NEW_FUN_EXT with one free variable
+            // fun: NEW_FUN_EXT made by `other`, with the identifier as its one free variable
             let mut body = vec![1u8];
             body.extend_from_slice(&[9u8; 16]);
             body.extend_from_slice(&[0, 0, 0, 1, 0, 0, 0, 1]);
             body.extend_from_slice(&[119, 1, b'm', 97, 1, 97, 2]);
-            body.extend_from_slice(&[88, 119, 3, b'n', b'@', b'h', 0, 0, 0, 1, 0, 0, 0, 0, 0, 0, 0, 1]);
+            // the process that made the fun: a pid of its own, in whichever form it arrived (not a term of the
+            // environment but a field of the fun)
+            body.extend_from_slice(other);
             body.extend_from_slice(id);
             o.push(112);
             o.extend_from_slice(&(body.len() as u32 + 4).to_be_bytes());
